@@ -234,6 +234,42 @@ Theorem C14_repeated_key_prefix_refuted :
     /\ p_uids a = [] /\ map u_content (p_uids b) = [[2]; [3]] /\ map sk_label (p_subs b) = [4].
 Proof. eexists. eexists. split; [vm_compute; reflexivity|]. repeat split. Qed.
 
+(* ------------------------------------------------------------------ packets that are not understood (repair bf7dbf5) *)
+(* signatures before the first non-signature packet are no longer an AttributeError: they are "orphaned packets" (a warning) - and,
+   the code being what it is (itertools.groupby has read one packet ahead when the loop is restarted), the packet after them is
+   lost with them: the model follows (strip_orphans); an export never starts with a signature, so C14_import_export is untouched.
+   Witness: signature, key 1, key 2 with a user id -> key 2 alone; signature, key 1, user id -> TypeError (no primary key) *)
+Theorem C14_leading_signature_orphaned :
+  (exists b, import [PSig (ps (mk 1 19 100 None true 7)); PKey true true true 1; PKey true true true 2; PUid true [3]] = Ok [b]
+     /\ p_label b = 2 /\ map u_content (p_uids b) = [[3]])
+  /\ import [PSig (ps (mk 1 19 100 None true 7)); PKey true true true 1; PUid true [3]] = ErrNoPrimary
+  /\ import [POpaque true 5; PSig (ps (mk 1 19 100 None true 7)); PKey true true true 1; PUid true [3]]
+     = import [PKey true true true 1; PUid true [3]]
+  /\ import_pre_bf7 [PSig (ps (mk 1 19 100 None true 7)); PKey true true true 1; PUid true [3]] = ErrLeadingSignature.
+Proof. split; [eexists; split; [vm_compute; reflexivity|]; split; reflexivity|]. repeat split. Qed.
+Print Assumptions C14_leading_signature_orphaned.
+
+(* after a primary key packet of unknown version nothing is kept until an understood primary key packet comes *)
+Theorem C14_opaque_primary_skips_what_follows : forall gs,
+  (forall g, In g gs -> match fst g with PKey true _ _ _ => False | _ => True end) -> drop_skipped true gs = [].
+Proof. exact drop_skipped_true_nokey. Qed.
+Print Assumptions C14_opaque_primary_skips_what_follows.
+
+(* A, then a primary key of unknown version with a user id and a subkey of its own, then B: A and B come back with their own
+   components only.  Before the repair the unknown key's user id and subkey were attached to A, and a leading signature raised *)
+Definition blob_unknown : list packet :=
+  [PKey true true true 1; PUid true [1]; POpaqueKey 9; PSig (ps (mk 9 31 100 None false 1)); PUid true [2]; PSig (ps (mk 9 19 100 None true 2));
+   PKey false true true 4; POpaque false 3; PUid true [5]; PKey true true true 2; PUid true [3]].
+Theorem C14_unknown_primary_keeps_its_components :
+  exists a b, import blob_unknown = Ok [a; b] /\ p_label a = 1 /\ p_label b = 2
+    /\ map u_content (p_uids a) = [[1]] /\ p_subs a = [] /\ map u_content (p_uids b) = [[3]] /\ p_subs b = [].
+Proof. eexists. eexists. split; [vm_compute; reflexivity|]. repeat split. Qed.
+Theorem C14_unknown_primary_prefix_refuted :
+  (exists a b, import_pre_bf7 blob_unknown = Ok [a; b] /\ p_label a = 1
+     /\ map u_content (p_uids a) = [[1]; [2]; [5]] /\ map sk_label (p_subs a) = [4])
+  /\ import_pre_bf7 (PSig (ps (mk 1 19 100 None true 7)) :: blob_unknown) = ErrLeadingSignature.
+Proof. split; [eexists; eexists; split; [vm_compute; reflexivity|]; repeat split|reflexivity]. Qed.
+
 (* ------------------------------------------------------------------ signature packets inside the key keep their octets *)
 (* KeyStruct treats a signature packet as an atom; that is justified for the two subpacket areas by Model/SubArea.v:
    copies (copy.copy, PGPKey.pubkey) export what the original exports, and a parsed packet exports what was read *)
